@@ -44,11 +44,17 @@ def t3(rep, tier, seed):
         rep.add(H.run_case(f"C18/T3/{algo}/reorder+scale", f"prtpy::{algo}", T.c18_heur_case, dom,
                            "same inputs; reorder (sorting algorithms) and scale (values and bin size) relations", chunk=64))
     dom = []
-    for _ in range(6 if tier == "quick" else 60):
-        n = rng.randint(11, 12 if tier == "quick" else 16); k = rng.randint(2, 4 if tier == "quick" else 5)
+    for _ in range(6 if tier == "quick" else 40):
+        n = rng.randint(11, 12 if tier == "quick" else 15); k = rng.randint(2, 4)
         dom.append({"values": [rng.randint(1, 200) for _ in range(n)], "k": k})
     rep.add(H.run_case("C18/T3/exact-algorithms/agreement", "cg, dp, ilp, ckk, snp, rnp", T.c18_agree_case, dom,
-                       "seeded random instances of 11..16 items (quick: 11..12), 2..5 bins, values 1..200; three objectives; heuristics never better", chunk=1))
+                       "seeded random instances of 11..15 items (quick: 11..12), 2..4 bins, values 1..200; three objectives; heuristics never better", chunk=1))
+    dom = []
+    for _ in range(1000 if tier == "quick" else 8000):
+        n = rng.randint(7, 9); k = rng.randint(3, 4)
+        dom.append({"values": [rng.randint(1, 300) for _ in range(n)], "k": k})
+    rep.add(H.run_case("C18/T3/exact-algorithms/agreement-medium-size", "cg, ckk, snp, rnp", T.c18_agree_fast_case, dom,
+                       "seeded random instances of 7..9 items, 3..4 bins, values 1..300: cg = ckk = snp = rnp on the difference objective; cg with and without pruning on the other two", chunk=8))
     # the exact packer is never worse than the packing heuristics: bin-completion against FFD / BFD / the exhaustive optimum on instances whose
     # items sit on the thresholds of its pruning rules (exact halves, thirds), 7-8 items
     from props._domains import threshold_packs
